@@ -94,9 +94,12 @@ Theorem c09_index_roundtrip :
 Proof. exact index_roundtrip. Qed.
 Print Assumptions c09_index_roundtrip.
 
-(* interp_index_matches_grid as the CURRENT code pairs things (lexicographic index into
-   GridKernel's K_{d-1} kron ... kron K_0 / the rows of create_data_from_grid) is refuted:
-   node (2,3) of a 4x5 grid gets flat index 13, which is grid point (1,3); the node is row 14 *)
+(* interp_index_matches_grid with the pairing the code used up to the fix commit 196a870
+   (Interpolation.interpolate's lexicographic index, dimensions in natural order, into GridKernel's
+   K_{d-1} kron ... kron K_0 / the rows of create_data_from_grid) is refuted: node (2,3) of a 4x5
+   grid gets flat index 13, which is grid point (1,3); the node is row 14.  The repaired pairing
+   (dimensions handed over in reverse order) is c09_reversed_lex_index_is_colmajor below; the
+   driver's kiss family fails with key kiss-kernel:index-order:... if the old pairing comes back *)
 Theorem c09_interp_index_matches_grid_refuted :
   exists gs ks, valid_multi gs ks /\ lex_index gs ks = 13%nat /\ colmajor_index gs ks = 14%nat
                 /\ colmajor_digits gs (lex_index gs ks) = [1; 3]%nat.
@@ -110,6 +113,16 @@ Theorem c09_interp_kernel_pairing_refuted :
       <> prod_entry fs ks ls.
 Proof. exact lex_into_grid_kernel_kron_witness. Qed.
 Print Assumptions c09_interp_kernel_pairing_refuted.
+
+(* the repair of the pairing (fixes_proposed/C09_interp_index_order_minimal.diff, /repo 196a870,
+   in GridInterpolationKernel._compute_grid and GridInterpolationVariationalStrategy._compute_grid): handing the
+   dimensions to Interpolation.interpolate in REVERSE order turns its lexicographic flat index into
+   the column-major index, i.e. (c09_grid_data_row, c09_grid_kernel_is_product_kernel) the row of
+   create_data_from_grid holding the node and its position in GridKernel's Kronecker product *)
+Theorem c09_reversed_lex_index_is_colmajor :
+  forall gs ks, valid_multi gs ks -> lex_index (rev gs) (rev ks) = colmajor_index gs ks.
+Proof. exact reversed_lex_is_colmajor. Qed.
+Print Assumptions c09_reversed_lex_index_is_colmajor.
 
 (* ------------------------------------------------------------------ cubic interpolation *)
 
